@@ -392,7 +392,9 @@ class XCubeMatchingDecoder(BaseDecoder):
                 toric_loop = get_toric_loop(
                     xcube_matching_ortho, component, proj_axis_int
                 )
-                correction_coordinates = decode_plane(toric_loop, (Lx, Ly))
+                correction_coordinates = decode_plane(
+                    toric_loop, tuple_remove((Lx, Ly, Lz), proj_axis_int)
+                )
 
                 plane_proj = component[0]
 
